@@ -1,6 +1,6 @@
 (** C07 -- the theorems the check counts.  Only statements + [exact lemma]; proofs live in Proofs07*.v. *)
 From Coq Require Import List Bool Arith NArith Permutation.
-From XV Require Import Gen.GenValid07 C07.Spec07 C07.Model07 C07.Proofs07a C07.Proofs07b C07.Proofs07e C07.Proofs07f C07.Spec07a C07.Model07a C07.Proofs07g.
+From XV Require Import Gen.GenValid07 C07.Spec07 C07.Model07 C07.Proofs07a C07.Proofs07b C07.Proofs07e C07.Proofs07f C07.Spec07a C07.Model07a C07.Proofs07g C07.Model07s C07.Spec07s C07.Proofs07s.
 Import ListNotations.
 
 (** the reference oracle decides the regular language of a content model *)
@@ -171,3 +171,54 @@ Example T07_decl_kinds_nonvacuous :
   memb 50 (unparsed (env_of_decls ds)) = true /\ memb 50 (parsed (env_of_decls ds)) = false /\
   memb 60 (parsed (env_of_decls ds)) = true /\ memb 60 (unparsed (env_of_decls ds)) = false.
 Proof. vm_compute. auto. Qed.
+
+(** ---- the declaration side: DTDScanner::scanContentSpec / scanChildren / scanMixed -------------------------
+    every token text of the XML grammar [47]-[50] (white space at every place the grammar allows it), whose groups
+    nest at most [lim - 1] deep the way CONTENTSPEC_DEPTH_LIMIT counts, is accepted and yields exactly the tree the
+    text denotes -- so T07_dfa / T07_content / T07_errors_iff_invalid start at the declaration TEXT.
+    _partial: the converse (a text outside the grammar is rejected with a fatal error) is not proved; the error
+    paths are covered by the correspondence (model = implementation on mutated texts, first fatal code compared). *)
+Theorem T07_parse_contentspec_partial : forall lim d ts c, childrenR d ts c -> d < lim ->
+  scan_element_decl lim ts = DOk (MChildren c).
+Proof. exact scan_decl_children. Qed.
+Print Assumptions T07_parse_contentspec_partial.
+
+(** the recursive call itself: a group in non-first position, followed by anything that is not a repetition
+    character, is consumed exactly and the rest is handed back *)
+Theorem T07_parse_group : forall lim d g g' c r rest,
+  grpR d g c -> d < lim -> g = KOpen :: g' -> is_rep rest = false ->
+  scan_children lim (g' ++ rep_toks r ++ rest) = SOk (app_rep r c) rest.
+Proof. exact scan_children_grammar. Qed.
+Print Assumptions T07_parse_group.
+
+(** Mixed [51]: the listed names in order (duplicates are then reported by decl_check: T07_errors_iff_invalid) *)
+Theorem T07_parse_mixed : forall lim ts ns, mixedR ts ns -> scan_element_decl lim ts = DOk (MMixed ns).
+Proof. exact scan_decl_mixed. Qed.
+Print Assumptions T07_parse_mixed.
+
+(* non-vacuity: ( n0 , (n1|n2)* ,n3? )+ with white space is in the grammar at depth 1; beyond the limit the
+   scanner gives the depth error; a repetition character after white space is refused *)
+Example T07_parse_nonvacuous :
+  scan_element_decl 2 [KOpen; KSp; KName 0; KSp; KComma; KSp; KOpen; KName 1; KPipe; KName 2; KClose; KStar; KSp;
+                       KComma; KName 3; KQ; KSp; KClose; KPlus; KSp]
+  = DOk (MChildren (Plus (Seq (Leaf 0) (Seq (Star (Choice (Leaf 1) (Leaf 2))) (Opt (Leaf 3)))))) /\
+  scan_element_decl 1 [KOpen; KName 0; KComma; KOpen; KName 1; KPipe; KName 2; KClose; KClose] = DErr UnterminatedDOCTYPE /\
+  scan_element_decl 5 [KOpen; KName 0; KSp; KStar; KClose] = DErr UnexpectedWhitespace /\
+  scan_element_decl 5 [KOpen; KOpen; KOpen; KName 0; KClose; KStar; KClose; KPlus; KClose] = DOk (MChildren (Plus (Star (Leaf 0)))).
+Proof. vm_compute. auto. Qed.
+
+Example T07_parse_grammar_nonvacuous :
+  childrenR 1 [KOpen; KName 0; KComma; KSp; KOpen; KName 1; KClose; KStar; KClose; KPlus]
+              (Plus (Seq (Leaf 0) (Star (Leaf 1)))).
+Proof.
+  apply (children_intro 1 [KOpen; KName 0; KComma; KSp; KOpen; KName 1; KClose; KStar; KClose] _ RPlus []);
+    [|constructor].
+  apply (grp_intro 1 GSeq [] [KName 0] (Leaf 0) [KComma; KSp; KOpen; KName 1; KClose; KStar] [Star (Leaf 1)]).
+  - constructor.
+  - apply (first_leaf 1 0 RNone).
+  - apply (tail_grp 0 GSeq [] [KSp] [KOpen; KName 1; KClose] (Leaf 1) RStar [] []).
+    + constructor.
+    + repeat constructor.
+    + apply (grp_intro 0 GSeq [] [KName 1] (Leaf 1) [] []); [constructor|apply (first_leaf 0 1 RNone)|repeat constructor].
+    + repeat constructor.
+Qed.
